@@ -291,6 +291,16 @@ func (un *Unit) monotoneStore(fr *Frame, st *State, p *Place, newVal string, pos
 	}
 	tf := strings.TrimPrefix(kind, "field:")
 	for _, m := range un.specs.Monitors {
+		for cf, gname := range m.Counts {
+			if tf == m.Pkg+"."+m.Type+"."+cf {
+				// counting ownership: this thread's share moves with the field
+				old := un.loadPlace(st, p)
+				comp := un.comp("G_"+gname, arraySort("Int", "Int"), "ghost")
+				cur := un.get(st, comp)
+				obj := p.keys[0]
+				un.set(st, comp, sto(cur, "(+ "+sel(cur, obj)+" (- "+newVal+" "+old+"))", obj))
+			}
+		}
 		for _, mf := range m.Monotone {
 			if tf == m.Pkg+"."+m.Type+"."+mf {
 				old := un.loadPlace(st, p)
